@@ -30,14 +30,22 @@ CLAIMS = {
              "interpolation algorithms, strength factors, proof reduction and simplification levels, every printed interpolant of "
              "random groupings is re-decided: A+not I and I+B must be refuted by a fresh run whose trace the Lean machine "
              "accepts (LA and EUF lemmas kernel-checked), and its symbols must be shared; a rejected legal request is a "
-             "violation. Partial: the algorithm-level theorems are about the model of the interpolation systems and are not "
-             "mechanically tied to InterpolationContext; the per-run tie is the certified re-decision.",
+             "violation. Mirror: on propositional instances with :produce-proofs, the printed proof, the partition of its leaves "
+             "and the labelling system (McMillan, Pudlak, McMillan') are given to the Lean model of the labelled interpolation "
+             "systems; after its executable well-formedness check the model's root interpolant must be logically equal (all "
+             "assignments) to the printed interpolant. Partial: the proof-sensitive systems, the theory interpolants (EUF, "
+             "Farkas variants as implemented) and proof reduction are covered by the certified re-decision only.",
         design_ref="5 C08"),
     "C09": dict(
-        technique="Lean 4 proof (checker soundness; step condition from certified refutations) tied by certified re-decision of every printed interpolant sequence",
-        text="As C08 for requests with 3-5 groups: every member is re-decided as a Craig interpolant of its cumulative split and "
-             "I_j + G_(j+1) + not I_(j+1) must be refuted by a run the Lean machine accepts (C09_path_from_splits). Partial: no "
-             "algorithm-level theorem for the path property of labelled interpolation systems is proved.",
+        technique="Lean 4 proof (path property of labelled interpolation systems for two consecutive cuts of one refutation; checker soundness; step condition from certified refutations) tied by a two-cut mirror of the printed proof and by certified re-decision of every printed interpolant sequence",
+        text="Theorem C09_labelled_path_step: for every resolution refutation labelled for two consecutive cuts with labels that fit "
+             "(pairOK; system_pairOK proves McMillan, Pudlak and McMillan' fit), I_j and the middle group imply I_(j+1). Tie: (1) as "
+             "C08 for requests with 3-5 groups: every member is re-decided as a Craig interpolant of its cumulative split and "
+             "I_j + G_(j+1) + not I_(j+1) must be refuted by a run the Lean machine accepts (C09_path_from_splits); (2) mirror: on "
+             "propositional instances the printed proof with its leaves assigned to the groups is labelled for both cuts around "
+             "every middle group by the Lean model, which checks the hypotheses of the theorem (labelsOK, structOk, empty root) and "
+             "computes both interpolants; they must be logically equal to the two printed ones. Partial: proof-sensitive labelling "
+             "systems, theory interpolants and proof reduction are covered by the certified re-decision only.",
         design_ref="5 C09"),
     "C17": dict(
         technique="Lean 4 proof (name printing: printed symbols read back as the same name; quoting happens exactly where needed) tied by a mirror of Logic::protectName and by re-reading every printed object with two readers",
